@@ -225,3 +225,8 @@ def run(P, R, tier):
             R.check(c.has_attr("nij_sigma_wij2") and c.has_attr("fnorm_sigma_wij") and c.calls_any("solve", "inv"), "DEP.T", f.key, f"{src(t)} = {src(v)[:40]}", "solve(sum N E[ww'], sum Fnorm E[w]')", "the new T does not solve the normal equations built from both accumulators", st.lineno)
     R.check(n_T >= 1, "DEP.T", f.key, "m_step stores machine.T", "", "the M-step no longer updates T: training returns the initial total-variability matrix")
     R.check(n_sigma >= 1, "DEP.sigma", f.key, "m_step stores machine.sigma", "", "the M-step no longer updates sigma (update_sigma has no effect)")
+    from ..engines import dtype as _dt
+    n_dt = 0
+    for name in ("e_step", "compute_tt_sigma_inv_fnorm", "compute_id_tt_sigma_inv_t"):
+        n_dt += _dt.check_function(P, R, IV + name, raw_attrs=("n", "sum_px", "sum_pxx"))
+    R.floor("DTYPE.raw sites (i-vector)", n_dt, 4)
